@@ -120,11 +120,20 @@ type c04Walker struct {
 	texts   []string          // roots written by EText effects
 	gnames  []string          // source text of the enclosing conditions
 	steps   []c04Step
+	// following extracted helpers (c04guards_inline.go)
+	top       string            // key of the function being translated
+	recvName  string            // its receiver
+	recvType  string
+	declared  map[string]bool   // names declared in it (and in the helpers being walked)
+	stack     []string          // helpers being inlined
+	sites     []string          // file:line of the calls being inlined
+	helper    *c04Helper        // set while the body of a spliced helper is walked
+	depth     int               // nesting of conditional blocks
+	okReturns []*ast.ReturnStmt // successful returns of the helper
 }
 
 func (w *c04Walker) errf(n ast.Node, format string, a ...interface{}) error {
-	pos := w.cf.fset.Position(n.Pos())
-	return fmt.Errorf("%s: %s:%d: %s", w.fn, filepath.Base(pos.Filename), pos.Line, strings.Join(strings.Fields(fmt.Sprintf(format, a...)), " "))
+	return fmt.Errorf("%s: %s: %s", w.fn, w.site(n), strings.Join(strings.Fields(fmt.Sprintf(format, a...)), " "))
 }
 
 func (w *c04Walker) text(n ast.Node) string {
@@ -219,6 +228,21 @@ func (w *c04Walker) cond(e ast.Expr) (*vCond, error) {
 	switch t := e.(type) {
 	case *ast.ParenExpr:
 		return w.cond(t.X)
+	case *ast.CallExpr:
+		// a predicate declared in this package: translated as if its body had been written in place
+		ex, cal, err := w.inlinePred(t)
+		if err != nil {
+			return nil, err
+		}
+		if ex != nil {
+			w.sites = append(w.sites, w.site(t))
+			w.stack = append(w.stack, cal.key)
+			defer func() { w.sites, w.stack = w.sites[:len(w.sites)-1], w.stack[:len(w.stack)-1] }()
+			if err := w.checkTexts(ex); err != nil {
+				return nil, err
+			}
+			return w.cond(ex)
+		}
 	case *ast.UnaryExpr:
 		if t.Op == token.NOT {
 			c, err := w.cond(t.X)
@@ -424,11 +448,46 @@ func (w *c04Walker) walk(stmts []ast.Stmt, g *vCond, inCond bool) error {
 			}
 		case *ast.ExprStmt:
 			if !isLogger(w.cf, s) {
+				if ce, ok := s.X.(*ast.CallExpr); ok {
+					if err := step(s); err != nil {
+						return err
+					}
+					handled, err := w.splice(s, ce, nil, next, g, inCond, &i)
+					if err != nil {
+						return err
+					}
+					if handled {
+						continue
+					}
+				}
 				return w.errf(s, "statement not understood: %s", w.text(s))
 			}
 		case *ast.ReturnStmt:
+			if w.helper != nil && w.isOkReturn(s) {
+				// the body of a spliced helper: `return .., nil` at its end continues the caller (no step)
+				if w.depth != 0 || i != len(stmts)-1 {
+					return w.errf(s, "helper return not followed: a successful return that is neither `if c { return .., nil }` at the top level nor the last statement")
+				}
+				w.okReturns = append(w.okReturns, s)
+				continue
+			}
 			if err := step(s); err != nil {
 				return err
+			}
+			if w.helper != nil {
+				// any other return of a spliced helper must be an error exit
+				if w.depth == 0 && w.cf.text(s.Results[len(s.Results)-1]) == "err" {
+					return w.errf(s, "helper return not followed: err returned without `if err != nil`")
+				}
+				o, err := w.outcome(s)
+				if err != nil {
+					return err
+				}
+				if !strings.HasPrefix(o, "(Refuse ") {
+					return w.errf(s, "helper return not followed: %s is neither an error exit nor nil", w.text(s))
+				}
+				w.emit("SGuard "+gCoq(g)+" "+o, s)
+				continue
 			}
 			// return f(args) for a translated or inlined function
 			if len(s.Results) == 1 {
@@ -478,6 +537,23 @@ func (w *c04Walker) walk(stmts []ast.Stmt, g *vCond, inCond bool) error {
 		case *ast.IfStmt:
 			if err := step(s); err != nil {
 				return err
+			}
+			if w.helper != nil && w.depth == 0 && s.Init == nil && s.Else == nil && len(s.Body.List) == 1 {
+				// `if c { return .., nil }` in a spliced helper: the rest of the helper happens under !c
+				if rs, ok := s.Body.List[0].(*ast.ReturnStmt); ok && w.isOkReturn(rs) {
+					if err := w.checkTexts(s.Cond); err != nil {
+						return err
+					}
+					c, err := w.cond(s.Cond)
+					if err != nil {
+						return err
+					}
+					w.okReturns = append(w.okReturns, rs)
+					w.gnames = append(w.gnames, "!("+strings.Join(strings.Fields(w.cf.text(s.Cond)), " ")+")")
+					err = w.walk(stmts[i+1:], vAnd(g, vNot(c)), true)
+					w.gnames = w.gnames[:len(w.gnames)-1]
+					return err
+				}
 			}
 			if err := w.walkIf(s, g); err != nil {
 				return err
@@ -594,6 +670,11 @@ func (w *c04Walker) assign(s *ast.AssignStmt, next ast.Stmt, g *vCond, inCond bo
 				w.effect(g, []string{"EText " + coqStr(w.text(s))}, s)
 				return nil
 			}
+			if _, known := c04Translated[fn]; !known {
+				if handled, err := w.splice(s, ce, s.Lhs, next, g, inCond, i); handled || err != nil {
+					return err
+				}
+			}
 		}
 	}
 	e, err := w.effTerm(s)
@@ -684,6 +765,8 @@ func (w *c04Walker) walkIf(s *ast.IfStmt, g *vCond) error {
 			return nil
 		}
 	}
+	w.depth++
+	defer func() { w.depth-- }()
 	if err := w.walk(s.Body.List, vAnd(g, c), true); err != nil {
 		return err
 	}
@@ -741,7 +824,9 @@ func (w *c04Walker) walkSwitch(s *ast.SwitchStmt, g *vCond) error {
 			ctxt = strings.Join(ts, " || ")
 		}
 		w.gnames = append(w.gnames, ctxt)
+		w.depth++
 		err := w.walk(cc.Body, vAnd(g, c), true)
+		w.depth--
 		w.gnames = w.gnames[:len(w.gnames)-1]
 		if err != nil {
 			return err
@@ -775,7 +860,8 @@ func (w *c04Walker) inline(in [2]string, ce *ast.CallExpr) error {
 	if len(params) != len(ce.Args) {
 		return w.errf(ce, "%s: argument count", in[1])
 	}
-	sub := &c04Walker{cf: cf, repo: w.repo, fn: w.fn, ints: map[string]string{}, strs: map[string]string{}, alias: map[string]string{}}
+	sub := &c04Walker{cf: cf, repo: w.repo, fn: w.fn, ints: map[string]string{}, strs: map[string]string{}, alias: map[string]string{},
+		declared: c04Declared(fd), top: in[1], stack: append(append([]string{}, w.stack...), w.top), sites: w.sites}
 	for i, a := range ce.Args {
 		t, ok := w.term(a)
 		if !ok {
@@ -800,7 +886,12 @@ func c04Translate(repo string, cf *c15File, fn string) ([]c04Step, error) {
 	if fd == nil || fd.Body == nil {
 		return nil, fmt.Errorf("%s not found", fn)
 	}
-	w := &c04Walker{cf: cf, repo: repo, fn: fn, ints: map[string]string{}, strs: map[string]string{}, alias: map[string]string{}}
+	w := &c04Walker{cf: cf, repo: repo, fn: fn, ints: map[string]string{}, strs: map[string]string{}, alias: map[string]string{}, declared: c04Declared(fd)}
+	w.top = fn
+	if fd.Recv != nil && len(fd.Recv.List) == 1 && len(fd.Recv.List[0].Names) == 1 {
+		w.recvName, w.recvType = fd.Recv.List[0].Names[0].Name, c15TypeName(fd.Recv.List[0].Type)
+		w.top = w.recvType + "." + fn
+	}
 	if err := w.walk(fd.Body.List, vTrue, false); err != nil {
 		return nil, err
 	}
